@@ -179,6 +179,49 @@ theorem c17_rows_once_in_order (mode : Mode) (fs : P → Option (File N D V)) (b
   subst hsch
   simp only [List.map_cons, npyLoad, hfirst, hall, List.flatten_cons]
 
+/-! ### the listed order survives the path resolution -/
+
+omit [DecidableEq N] [DecidableEq D] in
+theorem C17.absPathsGo_eq (join : P → P) (es : List (PathEntry P)) (acc : List P) :
+    absPathsGo join es acc = acc ++ es.map (resolveEntry join) := by
+  induction es generalizing acc with
+  | nil => simp [absPathsGo]
+  | cons e es ih => simp [absPathsGo, ih]
+
+omit [DecidableEq N] [DecidableEq D] in
+/-- **`get_abs_pathfilename_list` keeps the listed order**: entry `i` of the result is the resolved
+entry `i` of the list (absolute names unchanged, relative ones joined to the root directory), for
+any mix of relative and absolute names; nothing is dropped, duplicated or moved. -/
+theorem c17_abs_paths_in_listed_order (join : P → P) (es : List (PathEntry P)) :
+    getAbsPaths join es = es.map (resolveEntry join) ∧
+    (getAbsPaths join es).length = es.length ∧
+    ∀ i : Nat, (getAbsPaths join es)[i]? = (es[i]?).map (resolveEntry join) := by
+  have h : getAbsPaths join es = es.map (resolveEntry join) := by
+    simp [getAbsPaths, C17.absPathsGo_eq]
+  refine ⟨h, by simp [h], fun i => by simp [h]⟩
+
+/-- **Rows in listed-file order through the path resolution**: loading the files of a data set that
+are listed as any mix of relative and absolute names gives the rows of the first listed file, then
+those of the second, … (composition of the path loop with `c17_rows_once_in_order`). -/
+theorem c17_rows_in_listed_file_order (join : P → P) (mode : Mode) (fs : P → Option (File N D V)) (bs : Nat)
+    (hbs : 0 < bs) (o : Opts N D) (sch : List (N × D))
+    (first : PathEntry P × File N D V) (rest : List (PathEntry P × File N D V))
+    (hnd : (sch.map (·.1)).Nodup) (hcast : ∀ d v, cast d d v = v) (hprom : ∀ d, promote d d = d)
+    (hfiles : ∀ ef ∈ first :: rest,
+      C17.GoodFile castCopy castAssign cast fs o sch (resolveEntry join ef.1, ef.2)) :
+    npyLoad castCopy castAssign cast promote mode fs bs (getAbsPaths join ((first :: rest).map (·.1))) o =
+      .ok (specArr cast o ⟨sch, ((first :: rest).map (·.2.rows)).flatten⟩) := by
+  have h := c17_rows_once_in_order castCopy castAssign cast promote mode fs bs hbs o sch
+    (resolveEntry join first.1, first.2) (rest.map (fun ef => (resolveEntry join ef.1, ef.2)))
+    hnd hcast hprom (by
+      intro qf hqf
+      rcases List.mem_cons.mp hqf with rfl | hq
+      · exact hfiles first (by simp)
+      · obtain ⟨ef, hef, rfl⟩ := List.mem_map.mp hq
+        exact hfiles ef (by simp [hef]))
+  rw [(c17_abs_paths_in_listed_order join ((first :: rest).map (·.1))).1]
+  simpa [List.map_map, Function.comp_def] using h
+
 /-! ### kept fields, dtype conversion with exception list -/
 
 /-- **keep_fields**: the loaded fields are exactly the fields of the file whose name is kept
@@ -538,11 +581,12 @@ example : jointNames (mergeTables [((0 : Nat), 4), (1, 4)] [(1, 0), (2, 4)]) 4 =
 /-- renaming one field (the renaming step of `load_data` for a one-entry dictionary): the column
 loaded under the original name is present under the new name with the same content. -/
 theorem c17_rename_single (a : Arr N D V) (o r : N) (col : Col N D V)
-    (hcol : col ∈ a.cols) (hname : col.name = o) (hnd : (a.cols.map (·.name)).Nodup) :
+    (hcol : col ∈ a.cols) (hname : col.name = o) (hnd : (a.cols.map (·.name)).Nodup)
+    (hfree : r ∉ a.cols.map (·.name)) :
     ∃ a', renameFields [(o, r)] a = .ok a' ∧ { col with name := r } ∈ a'.cols := by
   have hstale : o ∈ a.cols.map (·.name) := List.mem_map.mpr ⟨col, hcol, hname⟩
   have hpop : ∀ (cols : List (Col N D V)), col ∈ cols → (cols.map (·.name)).Nodup →
-      ∃ rest, dictPop cols o = some (col, rest) := by
+      ∃ rest, dictPop cols o = some (col, rest) ∧ ∀ x ∈ rest, x ∈ cols := by
     intro cols
     induction cols with
     | nil => intro h; simp at h
@@ -550,12 +594,16 @@ theorem c17_rename_single (a : Arr N D V) (o r : N) (col : Col N D V)
       intro hmem hnd
       simp only [List.map_cons, List.nodup_cons] at hnd
       rcases List.mem_cons.mp hmem with rfl | hin
-      · exact ⟨xs, by simp [dictPop, hname]⟩
+      · exact ⟨xs, by simp [dictPop, hname], fun y hy => by simp [hy]⟩
       · have hx : x.name ≠ o := by
           intro hxo
           exact hnd.1 (List.mem_map.mpr ⟨col, hin, by rw [hname, hxo]⟩)
-        obtain ⟨rest, hrest⟩ := ih hin hnd.2
-        exact ⟨x :: rest, by simp [dictPop, hx, hrest]⟩
+        obtain ⟨rest, hrest, hsub⟩ := ih hin hnd.2
+        refine ⟨x :: rest, by simp [dictPop, hx, hrest], ?_⟩
+        intro y hy
+        rcases List.mem_cons.mp hy with rfl | hy'
+        · simp
+        · simp [hsub y hy']
   have hset : ∀ (cols : List (Col N D V)) (c : Col N D V), c ∈ dictSet cols c := by
     intro cols c
     induction cols with
@@ -565,9 +613,22 @@ theorem c17_rename_single (a : Arr N D V) (o r : N) (col : Col N D V)
       split
       · simp
       · simp [ih]
-  obtain ⟨rest, hrest⟩ := hpop a.cols hcol hnd
+  obtain ⟨rest, hrest, hsub⟩ := hpop a.cols hcol hnd
+  have hfree' : r ∉ rest.map (·.name) := by
+    intro hin
+    obtain ⟨x, hx, hxn⟩ := List.mem_map.mp hin
+    exact hfree (List.mem_map.mpr ⟨x, hsub x hx, hxn⟩)
   refine ⟨{ a with cols := dictSet rest { col with name := r } }, ?_, hset _ _⟩
-  simp [renameFields, renameGo, hstale, hrest]
+  simp only [renameFields, renameGo, hstale, if_true, hrest, hfree', if_false]
+
+/-- renaming onto the name of another existing field is refused (KeyError) instead of silently
+overwriting that field -/
+theorem c17_rename_collision_is_error (a : Arr N D V) (o r : N) (col other : Col N D V) (rest : List (Col N D V))
+    (hstale : o ∈ a.cols.map (·.name)) (hpop : dictPop a.cols o = some (col, rest))
+    (hother : other ∈ rest) (hname : other.name = r) :
+    renameFields [(o, r)] a = .error .keyError := by
+  have : r ∈ rest.map (·.name) := List.mem_map.mpr ⟨other, hother, hname⟩
+  simp [renameFields, renameGo, hstale, hpop, this]
 
 /-- the full renaming statement for arbitrary non-chaining dictionaries (proved for one entry in
 `c17_rename_single`; compared with the implementation by the correspondence check) -/
@@ -861,12 +922,19 @@ example : loadAndPrepare (N := Nat) (D := Nat) (V := Nat) (P := Nat) ⟨1, 2, 4,
       (fun _ _ => .ok ⟨[⟨0, 0, [7]⟩], 1⟩) (fun d => .ok d)
       ⟨[(0, 4)], [(1, 4)], [], [], [], [], none⟩ [0] [] true = .error .keyError := by decide
 
-/-- chained renaming dictionaries are order dependent in the code (sequential pops/sets on a stale
-field list): {5→6, 6→7} loses field 6, {6→7, 5→6} does not — outside `c17_rename_all_statement`. -/
+/-- renaming onto the name of a field that exists at that moment is refused (KeyError), so chained
+dictionaries are order dependent: {5→6, 6→7} on fields 5, 6 raises, {6→7, 5→6} renames both
+(compared with the real `rename_fields` on every run: request `rename`). -/
 example : renameFields [(5, 6), (6, 7)] (⟨[⟨5, 0, [1]⟩, ⟨6, 0, [2]⟩], 1⟩ : Arr Nat Nat Nat) =
-    .ok ⟨[⟨7, 0, [1]⟩], 1⟩ := by decide
+    .error .keyError := by decide
 
 example : renameFields [(6, 7), (5, 6)] (⟨[⟨5, 0, [1]⟩, ⟨6, 0, [2]⟩], 1⟩ : Arr Nat Nat Nat) =
     .ok ⟨[⟨7, 0, [2]⟩, ⟨6, 0, [1]⟩], 1⟩ := by decide
+
+/-- hypotheses of `c17_rename_single` on a concrete array -/
+example : (5 : Nat) ∉ ((⟨[⟨0, 0, [1]⟩, ⟨1, 0, [2]⟩], 1⟩ : Arr Nat Nat Nat).cols.map (·.name)) := by decide
+
+/-- a mixed list of relative and absolute file names, a relative one first -/
+example : getAbsPaths (fun p : Nat => p + 100) [.rel 1, .abs 7, .rel 2] = [101, 7, 102] := by decide
 
 end examples
